@@ -24,6 +24,6 @@ def run(ctx):
         if kc.concrete and not kc.is_part and kc.structure_owner is not kc.ci:
             revcomp_symmetry(ctx, kc, "C12.revcomp-symmetry.kit")
     from ..kernels import run_kernels
-    run_kernels(ctx, ["K10"], "C12")
+    run_kernels(ctx, ["K10", "K7", "K8", "K14", "K15", "K1"], "C12")
     from ..rules_flow import revcomp_wrapper_rule
     revcomp_wrapper_rule(ctx, "C12.circular-revcomp")
